@@ -121,6 +121,14 @@ class Target(Value):
 class Source(Value): ...
 
 
+def _string_literal(text) -> str:
+    # quotation marks are doubled inside VHDL string literals,
+    # line breaks are not allowed and are inserted using the character LF
+    return " & LF & ".join(
+        f'"{line}"' for line in str(text).replace('"', '""').split("\n")
+    )
+
+
 class Nop(Expression):
     def __init__(self):
         super().__init__(None)
@@ -524,7 +532,7 @@ class Assert(Statement):
     def write(self, scope: VhdlScope) -> str:
         if self._message is None:
             return f"assert {self._test.write(scope)};"
-        return f'assert {self._test.write(scope)} report "{self._message}";'
+        return f"assert {self._test.write(scope)} report {_string_literal(self._message)};"
 
 
 #
@@ -890,7 +898,7 @@ class VhdlScope:
         if isinstance(obj, int):
             return str(obj)
         if isinstance(obj, str):
-            return f'"{obj}"'
+            return _string_literal(obj)
 
         if isinstance(obj, (Bit, cohdl.BitState)):
             return f"'{obj}'"
@@ -918,7 +926,7 @@ class VhdlScope:
             if isinstance(obj, (int, float)):
                 return str(obj)
             elif isinstance(obj, str):
-                return f'"{obj}"'
+                return _string_literal(obj)
         else:
             val = obj._value
             assert val is not None, "array has no default value"
